@@ -11,6 +11,7 @@ import (
 	"encoding/json"
 	"errors"
 	"net/url"
+	"strings"
 )
 
 const verifBaseDoc = `{"openapi":"3.0.0","info":{"title":"t","version":"1","license":{"name":"MIT"}},"servers":[{"url":"https://{h}/v1","variables":{"h":{"default":"a"}}},{"url":"https://b.example/v2"}],` +
@@ -227,7 +228,7 @@ func verifH_C20_refgraphs() {
 	verifReach("end")
 }
 
-//verif:harness id=C20 tier=quick,thorough witness=end,loaded steps=20000000 bounds="references at every schema keyword position (not, allOf, oneOf, anyOf, items, properties, additionalProperties) x 18 targets: self reference through the position, pure-reference cycle, dangling, and fragments that drill into arrays and maps at, beyond and below their bounds (allOf/0, /1 = length, /2, /-1, /x, required/0, enum/1, empty token, '#/', '#', a scalar's child) x external references allowed or not; load, validate, serialise, internalise, serialise: no panic"
+//verif:harness id=C20 tier=quick,thorough witness=end,loaded steps=20000000 bounds="references at every schema keyword position (not, allOf, oneOf, anyOf, items, properties, additionalProperties) x 24 targets (incl. six fragments into members the target does not have): self reference through the position, pure-reference cycle, dangling, and fragments that drill into arrays and maps at, beyond and below their bounds (allOf/0, /1 = length, /2, /-1, /x, required/0, enum/1, empty token, '#/', '#', a scalar's child) x external references allowed or not; load, validate, serialise, internalise, serialise: no panic"
 func verifH_C20_schema_refs() {
 	pos := verifChoose("position", 7)
 	targets := []string{
@@ -249,6 +250,13 @@ func verifH_C20_schema_refs() {
 		"#/components/schemas/L/properties/q/items",
 		"#/components/schemas/Y1/additionalProperties", // drills through a reference that is not resolved yet
 		"#/components/schemas/Y1/properties/p",
+		// members the target object could have but does not: nothing is there
+		"#/components/schemas/L/items",
+		"#/components/schemas/L/not",
+		"#/components/schemas/L/properties/q/not",
+		"#/components/parameters/P/example",
+		"#/paths/~1p/get/requestBody",
+		"#/paths/~1p/get/responses/200/headers/X",
 	}
 	r := `{"$ref":"` + targets[verifChoose("target", len(targets))] + `"}`
 	var s string
@@ -328,6 +336,36 @@ func verifH_C20_server_urls() {
 		opServers = `"servers":[` + srv + `],`
 	}
 	text := `{"openapi":"3.0.0","info":{"title":"t","version":"1"},` + docServers + `"paths":{"/a":{` + itemServers + `"get":{` + opServers + `"responses":{"200":{"description":"d"}}}}}}`
+	verifExercise([]byte(text), false)
+	verifReach("end")
+}
+
+//verif:harness id=C20 tier=quick,thorough witness=end steps=20000000 bounds="a reference to the wrong kind of object met while its target is still being resolved: component X of kind K1 is a reference to component Y of the same kind, and inside Y a position of another kind K2 (a header / schema / example / link of a response, a schema / example of a parameter or header, a schema of a request body) refers back to X or Y: loading fails or succeeds but never panics (9 nestings x 2 targets x both reference orders)"
+func verifH_C20_wrong_kind_in_progress() {
+	type nest struct{ kind, inner string }
+	nests := []nest{
+		{"responses", `{"description":"d","headers":{"H":%s}}`},
+		{"responses", `{"description":"d","content":{"application/json":{"schema":%s}}}`},
+		{"responses", `{"description":"d","content":{"application/json":{"examples":{"e":%s}}}}`},
+		{"responses", `{"description":"d","links":{"l":%s}}`},
+		{"parameters", `{"name":"p","in":"query","schema":%s}`},
+		{"parameters", `{"name":"p","in":"query","examples":{"e":%s}}`},
+		{"headers", `{"schema":%s}`},
+		{"requestBodies", `{"content":{"application/json":{"schema":%s}}}`},
+		{"schemas", `{"type":"object","properties":{"p":%s}}`},
+	}
+	n := nests[verifChoose("nest", len(nests))]
+	target := []string{"X", "Y"}[verifChoose("target", 2)]
+	back := `{"$ref":"#/components/` + n.kind + `/` + target + `"}`
+	y := strings.Replace(n.inner, "%s", back, 1)
+	x := `{"$ref":"#/components/` + n.kind + `/Y"}`
+	// X sorts before Y: the loader meets the reference first; A/B names reverse the order
+	names := [][2]string{{"X", "Y"}, {"Y", "X"}}[verifChoose("order", 2)]
+	if names[0] == "Y" {
+		// the object is met first, the reference to it second
+		x, y = strings.Replace(n.inner, "%s", `{"$ref":"#/components/`+n.kind+`/`+target+`"}`, 1), `{"$ref":"#/components/`+n.kind+`/X"}`
+	}
+	text := `{"openapi":"3.0.0","info":{"title":"t","version":"1"},"paths":{},"components":{"` + n.kind + `":{"X":` + x + `,"Y":` + y + `}}}`
 	verifExercise([]byte(text), false)
 	verifReach("end")
 }
